@@ -5,6 +5,5 @@ CONSTANTS
   MaxRoots = 2
   RootFilter = {}
   Mut = "none"
-SPECIFICATION Spec
-CONSTRAINT GenConstraint
+SPECIFICATION GenSpec
 CHECK_DEADLOCK FALSE
